@@ -347,7 +347,29 @@ def r5(fx):
             yield ob(f'{fi.name}: find_version call dominated by the refusal of eci with micro', not bad, call, got=bad[:3] or 'never reached with eci and micro',
                      want='ValueError before the version search whenever eci and a Micro symbol are requested')
         else:
-            raise Unknown(f'{fi.name} calls find_version with a non-constant micro argument: no rule for this caller')
+            # a helper on the way from encode to the version search: covered by the decision table of encode above if encode is
+            # its only way in
+            callers_of = {}
+            for g in P.fns.values():
+                for _, cs in g.calls:
+                    for callee in cs:
+                        callers_of.setdefault(callee.key, set()).add(g.key)
+            seen, todo, roots = set(), [fi.key], set()
+            while todo:
+                k = todo.pop()
+                if k in seen:
+                    continue
+                seen.add(k)
+                up = callers_of.get(k, set()) - {k}
+                if not up or k == ('encoder', 'encode'):
+                    roots.add(k)
+                else:
+                    todo.extend(up)
+            inv = __import__('vstatic.canon', fromlist=['inventory']).inventory().get(fi.key[0], {})
+            if roots == {fi.key} and fi.key[1] not in inv.get('functions', ()):
+                continue        # a new helper whose calls were all inlined by the canonicaliser: its definition is dead code
+            if roots != {('encoder', 'encode')}:
+                raise Unknown(f'{fi.name} calls find_version with a non-constant micro argument and is reached from {sorted(roots)}: no rule for this caller')
     # mask_scores: width == height on its call chain
     ok = True
     chain = []
